@@ -28,12 +28,15 @@ RULE = (
     "one evaluation = one (nested graph structure, initial order of every graph, entry point) sorted "
     "once on real ir objects; structures are random lexically well-scoped DAGs or cyclic graphs "
     "(<=40 nodes, nesting depth <=3 through GRAPH and GRAPHS attributes, None/repeated inputs, 0-3 "
-    "outputs, captures from any enclosing graph) - for structures of <=5 nodes every combination of "
+    "outputs, captures from any enclosing graph; in 40% of the structures also consumers that are in no "
+    "graph - never added, or taken out with the non-safe Graph.remove - at any depth, often as the only "
+    "consumer of a capturing node) - for structures of <=5 nodes every combination of "
     "initial permutations is evaluated - plus (thorough) every loop-free digraph on <=4 labelled nodes "
-    "x every permutation x 3 nesting shapes. Non-trivial = the sorted scope has >=2 nodes and >=1 "
+    "x every permutation x 4 nesting shapes. Non-trivial = the sorted scope has >=2 nodes and >=1 "
     "same-graph dependency constraint; distinct = hash of (structure, initial orders, entry point)."
 )
 ASSUMPTIONS = [
+    "nodes that are in no graph (never added / removed with the non-safe remove) are outside the statement's relation: their uses of graph values and uses of their outputs create no constraint and no cycle; they must simply stay out of every graph",
     "inputs, producer(), attributes, Node.graph and iteration over a graph report the real structure (C01 is checked separately); the oracle reads the dependency relation through them and cross-checks it against the generator's own description of the structure (a mismatch makes the shard inconclusive)",
     "only lexically well-scoped graphs are generated (a value is used in its own graph or in graphs nested in it); for these the per-graph cycle notion of the statement and a global one coincide, so 'cycle' is unambiguous",
     "'depends only on structure and previous order' is sampled by two construction histories of the same structure in one process (different object creation order, addresses, uses() order) and by fresh interpreters under PYTHONHASHSEED 1/4242/31337; attribute names/order, node and value names are kept identical and count as structure",
@@ -48,7 +51,7 @@ HASHSEEDS = ("1", "4242", "31337")
 def plan(tier: str) -> dict:
     # Floors are sized for a machine that gives this check a small fraction of its 16 cores: roughly a
     # quarter (quick) / a third (thorough) of what a run at load average 85-100 reached.  In thorough the
-    # exhaustive space alone contributes 296091 evaluations (256995 of them cyclic).
+    # exhaustive space alone contributes 394788 evaluations (about 87% of them cyclic).
     if tier == "quick":
         return {
             "cases": 30000,
@@ -63,7 +66,8 @@ def plan(tier: str) -> dict:
                 "target:Graph.sort": 9000, "target:Function.sort": 3000, "target:TopologicalSortPass": 3000,
                 "target:Graph.sort(subgraph)": 1200, "all_permutations_structures": 500,
                 "feature:capture_after_cf_reordered": 600, "cycle:self-nested": 150, "cycle:self-direct": 1500,
-                "depth3_evaluations": 250,
+                "depth3_evaluations": 250, "evaluations_with_detached_consumers": 4000,
+                "feature:capturing_node_consumed_only_by_detached": 400,
             },
             "min_nontrivial": 15000,
             "params": {"exhaustive_n": 3, "hashseed_every": 40, "hashseed_shard_mod": 4},
@@ -81,7 +85,8 @@ def plan(tier: str) -> dict:
             "target:Graph.sort": 350000, "target:Function.sort": 35000, "target:TopologicalSortPass": 35000,
             "target:Graph.sort(subgraph)": 14000, "all_permutations_structures": 5000,
             "feature:capture_after_cf_reordered": 15000, "cycle:self-nested": 1800, "cycle:self-direct": 40000,
-            "depth3_evaluations": 3000,
+            "depth3_evaluations": 3000, "evaluations_with_detached_consumers": 100000,
+            "feature:capturing_node_consumed_only_by_detached": 30000,
         },
         "min_nontrivial": 400000,
         "params": {"exhaustive_n": 4, "hashseed_every": 12, "hashseed_shard_mod": 1},
@@ -309,6 +314,14 @@ def _reductions(case: dict):
                 c["sub"] = sub
             yield c
     for u, spec in enumerate(units):
+        for did in reversed(range(len(spec.get("detached", [])))):
+            res = G.remove_nodes(spec, set(), case.get("sub") if u == 0 else None, None, {did})
+            if res is not None:
+                yield dict(case, units=units[:u] + [res[0]] + units[u + 1:])
+        for did, d in enumerate(spec.get("detached", [])):
+            for slot in reversed(range(len(d["inputs"]))):
+                yield dict(case, units=units[:u] + [G.drop_input(spec, did, slot, False, True)] + units[u + 1:])
+    for u, spec in enumerate(units):
         for gid in reversed(range(1, len(spec["graphs"]))):
             res = G.remove_nodes(spec, set(), case.get("sub") if u == 0 else None, {gid})
             if res is None:
@@ -438,6 +451,10 @@ def _evaluate(ctx, case: dict, rng, hs_batch: list, every: int, meta: dict | Non
     ctx.count("nodes_sorted", n_nodes)
     if meta and meta.get("max_depth", 0) >= 3:
         ctx.count("depth3_evaluations")
+    if any(u.get("detached") for u in case["units"]):
+        ctx.count("evaluations_with_detached_consumers")
+        if any(G.dangling_capture_nodes(u) for u in case["units"]):
+            ctx.count("feature:capturing_node_consumed_only_by_detached")
     ctx.evaluation(key=stable_hash([case["units"], case["target"], case.get("sub")]), nontrivial=n_nodes >= 2 and n_cons >= 1)
     if findings:
         _report(ctx, findings, case, variant, seed)
@@ -487,7 +504,8 @@ def run(ctx) -> None:
         rng = ctx.rng(case_id)
         cases, meta = generate(rng)
         for key in ("none_inputs", "repeated_inputs", "captures", "back_edges", "graph_input_uses",
-                    "multi_output_nodes", "cf_nodes", "empty_subgraphs"):
+                    "multi_output_nodes", "cf_nodes", "empty_subgraphs", "detached_never", "detached_removed",
+                    "uses_of_detached_outputs"):
             ctx.count(f"gen:{key}", meta[key])
         ctx.count(f"gen:class_{meta['class']}")
         ctx.count(f"gen:max_depth_{meta['max_depth']}")
